@@ -75,6 +75,12 @@ pub struct FaultPlan {
     /// With `crash_on`: let this many matching operations pass first.
     #[serde(default, skip_serializing_if = "is_zero_u32")]
     pub crash_on_skip: u32,
+    /// Crash AFTER the first operation matching (verb, pattern as in `crash_on`) has been
+    /// performed: before the operation that follows it, or `crash_after_ops` operations later.
+    #[serde(default, skip_serializing_if = "Option::is_none")]
+    pub crash_after: Option<(String, String)>,
+    #[serde(default, skip_serializing_if = "is_zero_u32")]
+    pub crash_after_ops: u32,
 }
 
 fn is_zero_u32(n: &u32) -> bool {
@@ -95,7 +101,7 @@ impl FaultPlan {
         self
     }
     pub fn is_faultless(&self) -> bool {
-        self.at.is_empty() && self.fail_each.is_none() && self.crash_on.is_none()
+        self.at.is_empty() && self.fail_each.is_none() && self.crash_on.is_none() && self.crash_after.is_none()
     }
 }
 
@@ -466,6 +472,7 @@ pub struct Interceptor {
     pub delays: AtomicU32,
     gated: AtomicBool,
     crash_on_seen: AtomicU32,
+    crash_after_at: AtomicU32,
 }
 
 impl std::fmt::Debug for Interceptor {
@@ -652,6 +659,22 @@ impl Backend for Interceptor {
                 }
             }
         }
+        if fault.is_none() {
+            if let Some((verb, prefix)) = &self.plan.crash_after {
+                if idx == self.crash_after_at.load(SeqCst) {
+                    fault = Some(Fault::CrashBefore);
+                } else if self.crash_after_at.load(SeqCst) == u32::MAX {
+                    let path = store::op_path(&op);
+                    let hit = match prefix.strip_prefix('*') {
+                        Some(needle) => path.contains(needle),
+                        None => path.starts_with(prefix.as_str()),
+                    };
+                    if store::op_verb(&op) == verb && hit {
+                        self.crash_after_at.store(idx + 1 + self.plan.crash_after_ops, SeqCst);
+                    }
+                }
+            }
+        }
         if delayed > 0 {
             self.delays.fetch_add(1, SeqCst);
             for _ in 0..delayed {
@@ -811,6 +834,7 @@ where
         delays: AtomicU32::new(0),
         gated: AtomicBool::new(opts.gated),
         crash_on_seen: AtomicU32::new(0),
+        crash_after_at: AtomicU32::new(u32::MAX),
     });
     let log_from = core.log_len();
     let transport = Transport::verif_with_backend(ic.clone());
